@@ -430,6 +430,13 @@ def main():
             signals.append({"what": "audit", "name": "; ".join(audit_bad)[:1500], "detail": ""})
     else:
         obligations = len(cfg.get("theorems", []))
+    # thorough tier: independent re-check of the compiled proofs
+    leanchecker = None
+    if lake_ok and tier == "thorough":
+        rcl, outl = run(["lake", "env", "leanchecker", "SophiaProofs.Props." + prop], cwd=LEAN, timeout=3000)
+        leanchecker = "ok" if rcl == 0 else "failed"
+        if rcl != 0:
+            signals.append({"what": "leanchecker", "name": "leanchecker SophiaProofs.Props." + prop, "detail": outl[-2000:]})
     hits = step_grep()
     if hits:
         signals.append({"what": "forbidden-token", "name": "; ".join(hits)[:1500], "detail": ""})
@@ -591,6 +598,7 @@ def main():
         "trusted_base": cfg.get("trusted_base", []) + P.COMMON_TRUSTED,
         "theorems": cfg.get("theorems", []),
         "native_decide_theorems": native_used,
+        "leanchecker": leanchecker,
         "failing_theorems": failing_theorems,
         "generated_tables": {k: v.get("file") for k, v in ex.get("tables", {}).items() if k in cfg.get("tables", [])},
         "evaluations": evaluations,
